@@ -1616,3 +1616,239 @@ Proof.
   intros Hr. cbn zeta. destruct (old_count_char ops Hr) as (_ & _ & Hc & _). cbn zeta in Hc.
   unfold orphaner_tick_breaks. rewrite Hc. apply N.ltb_lt.
 Qed.
+
+(* ================================================================ deepening round 3 *)
+
+From Coq Require Import Btauto.
+
+
+(* the real clock readings lie inside the runner's brackets: the real results lie between the
+   driver's two model runs *)
+Theorem bracket_accepts lo re hi : same_ops lo re -> same_ops re hi -> stamps_le lo re -> stamps_le re hi ->
+  Forall op_in_range (untimed re) ->
+  Forall2 res_le (snd (th_run th_new lo)) (snd (th_run th_new re)) /\
+  Forall2 res_le (snd (th_run th_new re)) (snd (th_run th_new hi)).
+Proof.
+  intros S1 S2 L1 L2 Hr. split; apply th_bracket; try assumption.
+  now rewrite (same_ops_untimed lo re S1).
+Qed.
+
+Lemma kinv_run ops : forall m st, KInv m st -> Forall op_in_range ops ->
+  exists st', KInv (fst (hm_run m ops)) st'.
+Proof.
+  induction ops as [|o r IH]; intros m st HK HF; cbn [hm_run]; [eauto|].
+  inversion HF as [|? ? Ho Hr]; subst.
+  destruct (KInv_step m st o HK Ho) as (st' & _ & HK').
+  destruct (hm_step m o) as [m1 x]. cbn [fst] in *.
+  destruct (IH m1 st' HK' Hr) as [st2 H2]. destruct (hm_run m1 r) as [m2 xs]. cbn [fst] in *. eauto.
+Qed.
+
+(* after ANY operation sequence (request ids / tokens may repeat; lookups in range) an allocation
+   never panics and never returns an id that still has a handler or is in the orphanage *)
+Theorem alloc_fresh_always ops rid tok : Forall op_in_range ops ->
+  let m := fst (hm_run hm_new ops) in
+  snd (hm_allocate m rid tok) <> AllocPanic /\
+  forall sid, snd (hm_allocate m rid tok) = AllocOk sid ->
+    sid < nids /\ used (hm_words m) sid = false /\ mget sid (hm_handlers m) = None /\
+    smem sid (hm_orphans m) = false /\
+    (forall r, mget r (hm_r2s m) <> Some sid).
+Proof.
+  intros Hr. cbn zeta. destruct (kinv_run ops hm_new [] KInv_new Hr) as [st K].
+  set (m := fst (hm_run hm_new ops)) in *. unfold hm_allocate.
+  destruct (sid_alloc (hm_words m)) as [[sid ws']|] eqn:Ha; cbn [snd].
+  - destruct (bitmap_alloc _ _ _ (k_wf _ _ K) Ha) as (Hlt & Hfree & _).
+    assert (Hn : mget sid (hm_handlers m) = None).
+    { destruct (mget sid (hm_handlers m)) eqn:G; [|reflexivity]. apply (k_h _ _ K) in G. congruence. }
+    rewrite Hn. cbn [snd]. split; [discriminate|]. intros s E. inv_some E.
+    repeat split; try assumption.
+    + destruct (smem s (hm_orphans m)) eqn:G; [|reflexivity]. destruct (k_o _ _ K _ G). congruence.
+    + intros r G. destruct (k_r _ _ K _ _ G) as [t Ht]. congruence.
+  - split; [discriminate|]. intros s E. discriminate.
+Qed.
+
+(* the age reading of old_ids without the truncated subtraction *)
+Theorem old_ids_age ops now sid : Forall op_in_range (untimed ops) ->
+  let t := fst (th_run th_new ops) in
+  In sid (old_ids t now) <->
+  exists since, orphaned_since t sid = Some since /\
+    if old_age_ns <=? now
+    then since + old_age_ns < now \/ (since + old_age_ns = now /\ sid < 32767)
+    else since = 0 /\ sid < 32767.
+Proof.
+  intros Hr. cbn zeta. destruct (old_count_char ops Hr) as (_ & _ & _ & H). cbn zeta in H. rewrite H.
+  split; intros (tm & Hs & Hc); exists tm; (split; [assumption|]); destruct (N.leb_spec old_age_ns now); lia.
+Qed.
+
+
+(* acceptor states up to the recorded positions *)
+Definition aeq (a b : acc) : Prop :=
+  (forall k, mhas k (a_sub a) = mhas k (a_sub b)) /\
+  (forall k, mhas k (a_recv a) = mhas k (a_recv b)) /\
+  (forall k, mget k (a_owed a) = mget k (a_owed b)) /\
+  (forall k, mhas k (a_ans a) = mhas k (a_ans b)) /\
+  (forall k, mhas k (a_done a) = mhas k (a_done b)).
+
+Lemma aeq_refl a : aeq a a.
+Proof. repeat split. Qed.
+Lemma aeq_trans a b c : aeq a b -> aeq b c -> aeq a c.
+Proof. intros (A1&A2&A3&A4&A5) (B1&B2&B3&B4&B5). repeat split; intros k; congruence. Qed.
+
+Lemma mhas_owed {V} k (m m' : nmap V) : mget k m = mget k m' -> mhas k m = mhas k m'.
+Proof. unfold mhas. now intros ->. Qed.
+
+Lemma mget_mput_eq {V} k k' (v : V) m m' : mget k m = mget k m' -> mget k (mput k' v m) = mget k (mput k' v m').
+Proof. intros H. destruct (N.eq_dec k k'); [subst; now rewrite !mget_mput_same|now rewrite !mget_mput_other]. Qed.
+Lemma mget_mrem_eq {V} k k' (m m' : nmap V) : mget k m = mget k m' -> mget k (mrem k' m) = mget k (mrem k' m').
+Proof. intros H. destruct (N.eq_dec k k'); [subst; now rewrite !mget_mrem_same|now rewrite !mget_mrem_other]. Qed.
+
+Lemma aeq_step a b e a' : aeq a b -> acc_step a e = Some a' ->
+  exists b', acc_step b e = Some b' /\ aeq a' b'.
+Proof.
+  intros (S&R&O&A&D) H. destruct e as [m|sid m|sid m|m o]; cbn [acc_step] in *.
+  - rewrite <- S. destruct (mhas m (a_sub a)); inv_some H. eexists. split; [reflexivity|].
+    repeat split; acc_simpl; intros k; rewrite ?mhas_mput, ?S; auto.
+  - rewrite <- S, <- R, <- D, <- (mhas_owed sid _ _ (O sid)).
+    destruct (_ && _); inv_some H. eexists. split; [reflexivity|].
+    repeat split; acc_simpl; intros k; rewrite ?mhas_mput, ?R; auto. now apply mget_mput_eq.
+  - rewrite <- O. destruct (mget sid (a_owed a)) as [m'|]; [|discriminate].
+    destruct (m' =? m); inv_some H. eexists. split; [reflexivity|].
+    repeat split; acc_simpl; intros k; rewrite ?mhas_mput, ?A; auto. now apply mget_mrem_eq.
+  - rewrite <- S, <- D, <- A, <- R. destruct (_ && _); inv_some H. eexists. split; [reflexivity|].
+    repeat split; acc_simpl; intros k; rewrite ?mhas_mput, ?D; auto.
+Qed.
+
+Lemma aeq_run l : forall a b af, aeq a b -> acc_run a l = Some af ->
+  exists bf, acc_run b l = Some bf /\ aeq af bf.
+Proof.
+  induction l as [|e r IH]; intros a b af E H; cbn [acc_run] in *.
+  - inv_some H. eauto.
+  - destruct (acc_step a e) as [a1|] eqn:Hs; [|discriminate].
+    destruct (aeq_step _ _ _ _ E Hs) as (b1 & Hb & E1). rewrite Hb. eauto.
+Qed.
+
+
+Ltac gtrue H := match type of H with (if ?c then _ else _) = Some _ =>
+  let E := fresh "G" in destruct c eqn:E; [|discriminate]; inv_some H end.
+Ltac gfalse H := match type of H with (if ?c then _ else _) = Some _ =>
+  let E := fresh "G" in destruct c eqn:E; [discriminate|]; inv_some H end.
+Ltac split_and G := repeat (let X := fresh "G" in apply Bool.andb_true_iff in G; destruct G as [G X]).
+
+(* ESub one place earlier *)
+Lemma swap_sub a x m a1 a2 : acc_step a x = Some a1 -> acc_step a1 (ESub m) = Some a2 ->
+  exists b1 b2, acc_step a (ESub m) = Some b1 /\ acc_step b1 x = Some b2 /\ aeq a2 b2.
+Proof.
+  intros H1 H2. cbn [acc_step] in H2. gfalse H2.
+  destruct x as [m0|sid m0|sid m0|m0 o]; cbn [acc_step] in H1.
+  - gfalse H1. acc_simpl. rewrite mhas_mput in G. apply Bool.orb_false_iff in G as [Gm Gs].
+    cbn [acc_step]. rewrite Gs. do 2 eexists. split; [reflexivity|]. acc_simpl.
+    rewrite mhas_mput, G0. rewrite N.eqb_sym, Gm. cbn [orb]. split; [reflexivity|].
+    repeat split; acc_simpl; intros k; rewrite ?mhas_mput; try reflexivity. btauto.
+  - gtrue H1. acc_simpl. cbn [acc_step]. rewrite G. do 2 eexists. split; [reflexivity|]. cbn [acc_step]. acc_simpl.
+    assert (Hm0 : mhas m0 (a_sub a) = true).
+    { destruct (mhas m0 (a_sub a)); [reflexivity|]. rewrite ?Bool.andb_false_r in G0. cbn in G0. discriminate. }
+    rewrite mhas_mput, Hm0, Bool.orb_true_r. rewrite Hm0 in G0. rewrite G0. split; [reflexivity|]. repeat split; intros; acc_simpl; rewrite ?mhas_mput; reflexivity.
+  - destruct (mget sid (a_owed a)) as [m'|] eqn:E; [|discriminate]. gtrue H1. acc_simpl.
+    cbn [acc_step]. rewrite G. do 2 eexists. split; [reflexivity|]. cbn [acc_step]. acc_simpl. rewrite E, G0.
+    split; [reflexivity|]. repeat split; intros; acc_simpl; rewrite ?mhas_mput; reflexivity.
+  - gtrue H1. acc_simpl. cbn [acc_step]. rewrite G. do 2 eexists. split; [reflexivity|]. cbn [acc_step]. acc_simpl.
+    assert (Hm0 : mhas m0 (a_sub a) = true).
+    { destruct (mhas m0 (a_sub a)); [reflexivity|]. cbn in G0. discriminate. }
+    rewrite mhas_mput, Hm0, Bool.orb_true_r. rewrite Hm0 in G0. rewrite G0. split; [reflexivity|]. repeat split; intros; acc_simpl; rewrite ?mhas_mput; reflexivity.
+Qed.
+
+
+Ltac fin := repeat split; intros; acc_simpl; rewrite ?mhas_mput; try reflexivity; try btauto.
+
+(* EDone one place later *)
+Lemma swap_done a x m o a1 a2 : acc_step a (EDone m o) = Some a1 -> acc_step a1 x = Some a2 ->
+  exists b1 b2, acc_step a x = Some b1 /\ acc_step b1 (EDone m o) = Some b2 /\ aeq a2 b2.
+Proof.
+  intros H1 H2. cbn [acc_step] in H1. gtrue H1.
+  assert (Hs : mhas m (a_sub a) = true).
+  { destruct (mhas m (a_sub a)); [reflexivity|]. cbn in G. discriminate. }
+  assert (Hd : mhas m (a_done a) = false).
+  { destruct (mhas m (a_done a)); [|reflexivity]. rewrite Hs in G. cbn in G. discriminate. }
+  rewrite Hs, Hd in G. cbn [andb negb] in G.
+  destruct x as [m0|sid m0|sid m0|m0 o0]; cbn [acc_step] in H2; acc_simpl.
+  - gfalse H2. cbn [acc_step]. rewrite G0. do 2 eexists. split; [reflexivity|]. cbn [acc_step]. acc_simpl.
+    rewrite mhas_mput, Hs, Bool.orb_true_r, Hd, G. cbn [andb negb]. split; [reflexivity|]. fin.
+  - gtrue H2. rewrite mhas_mput in G0. destruct (m0 =? m) eqn:E.
+    { cbn [orb negb] in G0. rewrite ?Bool.andb_false_r in G0. cbn in G0. discriminate. }
+    cbn [orb] in G0. cbn [acc_step]. rewrite G0. do 2 eexists. split; [reflexivity|]. cbn [acc_step]. acc_simpl.
+    rewrite Hs, Hd. cbn [andb negb]. rewrite mhas_mput, (N.eqb_sym m m0), E. cbn [orb]. rewrite G.
+    split; [reflexivity|]. fin.
+  - destruct (mget sid (a_owed a)) as [m'|] eqn:Eo; [|discriminate]. gtrue H2.
+    cbn [acc_step]. rewrite Eo, G0. do 2 eexists. split; [reflexivity|]. cbn [acc_step]. acc_simpl.
+    rewrite Hs, Hd. cbn [andb negb].
+    assert (Hc : match o with
+                 | ORows m'0 => (m'0 =? m) && mhas m (mput m0 sid (a_ans a))
+                 | OErrAlloc => negb (mhas m (a_recv a))
+                 | OOther => true
+                 end = true).
+    { destruct o; try assumption. apply Bool.andb_true_iff in G as [Ga Gb].
+      rewrite Ga, mhas_mput, Gb, Bool.orb_true_r. reflexivity. }
+    rewrite Hc. split; [reflexivity|]. fin.
+  - gtrue H2. rewrite mhas_mput in G0. destruct (m0 =? m) eqn:E.
+    { cbn [orb negb] in G0. rewrite ?Bool.andb_false_r in G0. cbn in G0. discriminate. }
+    cbn [orb] in G0. cbn [acc_step]. rewrite G0. do 2 eexists. split; [reflexivity|]. cbn [acc_step]. acc_simpl.
+    rewrite Hs, mhas_mput, (N.eqb_sym m m0), E, Hd. cbn [orb andb negb]. rewrite G.
+    split; [reflexivity|]. fin.
+Qed.
+
+
+Lemma acc_run_split a l1 l2 af : acc_run a (l1 ++ l2) = Some af ->
+  exists a1, acc_run a l1 = Some a1 /\ acc_run a1 l2 = Some af.
+Proof.
+  rewrite (acc_run_app a l1 a eq_refl). destruct (acc_run a l1) as [a1|]; [eauto|discriminate].
+Qed.
+Lemma acc_run_join a l1 l2 a1 : acc_run a l1 = Some a1 -> acc_run a (l1 ++ l2) = acc_run a1 l2.
+Proof. intros H. now rewrite (acc_run_app a l1 a eq_refl), H. Qed.
+
+Theorem skew_accepts l l' : skew l l' -> forall a af, acc_run a l = Some af ->
+  exists bf, acc_run a l' = Some bf /\ aeq af bf.
+Proof.
+  induction 1 as [l|l1 x m l2|l1 m o x l2|l l' l'' _ IH1 _ IH2]; intros a af H.
+  - exists af. split; [assumption|apply aeq_refl].
+  - destruct (acc_run_split _ _ _ _ H) as (a0 & H0 & Hr). cbn [acc_run] in Hr.
+    destruct (acc_step a0 x) as [a1|] eqn:S1; [|discriminate].
+    destruct (acc_step a1 (ESub m)) as [a2|] eqn:S2; [|discriminate].
+    destruct (swap_sub _ _ _ _ _ S1 S2) as (b1 & b2 & T1 & T2 & E).
+    destruct (aeq_run _ _ _ _ E Hr) as (bf & Hb & Ef). exists bf. split; [|assumption].
+    rewrite (acc_run_join _ _ _ _ H0). cbn [acc_run]. now rewrite T1, T2.
+  - destruct (acc_run_split _ _ _ _ H) as (a0 & H0 & Hr). cbn [acc_run] in Hr.
+    destruct (acc_step a0 (EDone m o)) as [a1|] eqn:S1; [|discriminate].
+    destruct (acc_step a1 x) as [a2|] eqn:S2; [|discriminate].
+    destruct (swap_done _ _ _ _ _ _ S1 S2) as (b1 & b2 & T1 & T2 & E).
+    destruct (aeq_run _ _ _ _ E Hr) as (bf & Hb & Ef). exists bf. split; [|assumption].
+    rewrite (acc_run_join _ _ _ _ H0). cbn [acc_run]. now rewrite T1, T2.
+  - destruct (IH1 _ _ H) as (b1 & Hb1 & E1). destruct (IH2 _ _ Hb1) as (b2 & Hb2 & E2).
+    exists b2. split; [assumption|eapply aeq_trans; eassumption].
+Qed.
+
+(* a skewed history is an observation in the sense of [observes] *)
+Lemma skew_observes l l' : skew l l' -> observes l l'.
+Proof.
+  induction 1 as [l|l1 x m l2|l1 m o x l2|l l' l'' _ [F1 D1] _ [F2 D2]].
+  - split; [reflexivity|auto].
+  - split.
+    + rewrite !filter_app. cbn [filter is_mock]. destruct (is_mock x); reflexivity.
+    + intros e _ Hin. rewrite in_app_iff in *. cbn [In] in *. tauto.
+  - split.
+    + rewrite !filter_app. cbn [filter is_mock]. destruct (is_mock x); reflexivity.
+    + intros e _ Hin. rewrite in_app_iff in *. cbn [In] in *. tauto.
+  - split; [congruence|]. intros e He Hin. apply D2; [assumption|]. now apply D1.
+Qed.
+
+(* No false alarm under skew, event by event: the history of every run of the connection model,
+   observed with submissions stamped earlier and outcomes stamped later (any number of adjacent
+   swaps), passes every event check of the acceptor. *)
+Theorem trace_skew_accepts ls s obs : run conn_init ls = Some s -> skew (obs_run conn_init ls) obs ->
+  exists a, acc_run acc_init obs = Some a.
+Proof.
+  intros Hr Hs. destruct (trace_sound_prefix ls s Hr) as [a Ha].
+  destruct (skew_accepts _ _ Hs _ _ Ha) as (b & Hb & _). eauto.
+Qed.
+
+Theorem skew_accepts_ex l l' : skew l l' -> forall a af, acc_run a l = Some af ->
+  exists bf, acc_run a l' = Some bf.
+Proof. intros H a af Ha. destruct (skew_accepts l l' H a af Ha) as (bf & Hb & _). eauto. Qed.
